@@ -13,8 +13,10 @@ import (
 	"flag"
 	"fmt"
 	"math/rand"
+	"net"
 	"os"
 	"sort"
+	"strings"
 	"sync"
 
 	"github.com/nuetzliches/hookaido/verif/c16"
@@ -78,8 +80,37 @@ func sentWord(n int) string {
 }
 
 // non-vacuity counters from what was observed (no oracle involved)
-func count(local map[string]int, row *c16.Row, mode string, o c16.Obs, d c16.Disp) {
+var noteworthy = c16.Noteworthy()
+
+func count(local map[string]int, row *c16.Row, conc *c16.Conc, mode string, o c16.Obs, d c16.Disp) {
 	local["events"]++
+	if row.Fam == "addr" && row.Pol.Rebind {
+		// which concrete edge / just-outside addresses were used (under rebind protection: where the class decides)
+		for _, h := range conc.Hops {
+			for _, a := range h.Answers {
+				if ip := net.ParseIP(a); ip != nil {
+					if tag, ok := noteworthy[ip.String()]; ok {
+						local["edge/"+tag+"/"+ip.String()+"/"+sentWord(o.N)]++
+					} else if v4 := ip.To4(); v4 != nil {
+						if tag, ok := noteworthy[v4.String()]; ok {
+							local["edge/"+tag+"/"+v4.String()+"/"+sentWord(o.N)]++
+						}
+					}
+				}
+			}
+			if h.Lookup == "" {
+				if ip := net.ParseIP(strings.ToLower(h.Host)); ip != nil {
+					key := ip.String()
+					if v4 := ip.To4(); v4 != nil {
+						key = v4.String()
+					}
+					if tag, ok := noteworthy[key]; ok {
+						local["edge/"+tag+"/"+key+"/"+sentWord(o.N)]++
+					}
+				}
+			}
+		}
+	}
 	local["mode/"+mode]++
 	local["fam/"+row.Fam]++
 	local["cls/"+o.Cls]++
@@ -220,7 +251,7 @@ func run(args []string) error {
 					if k >= 3 {
 						variant = base + k
 					}
-					conc, err := c16.Concretise(row, variant, rngFor(*seed, i, variant))
+					conc, err := c16.Concretise(row, variant, i, rngFor(*seed, i, variant))
 					if err != nil {
 						errs <- fmt.Errorf("row %d: %w", i, err)
 						return
@@ -235,7 +266,7 @@ func run(args []string) error {
 						errs <- err
 						return
 					}
-					count(local, row, "direct", obs, ev.Disp)
+					count(local, row, conc, "direct", obs, ev.Disp)
 					if *dispEvery > 0 && (i+off)%*dispEvery == 0 && k == i%*per {
 						obs, disp, err := c16.ExecDispatch(conc)
 						if err != nil {
@@ -247,7 +278,7 @@ func run(args []string) error {
 							errs <- err
 							return
 						}
-						count(local, row, "dispatch", obs, disp)
+						count(local, row, conc, "dispatch", obs, disp)
 					}
 				}
 			}
@@ -264,7 +295,12 @@ func run(args []string) error {
 		keys = append(keys, k)
 	}
 	sort.Strings(keys)
-	sum := map[string]any{"rows": len(lines), "events": cnt.m["events"], "counters": cnt.m}
+	edges := []string{}
+	for ip, tag := range noteworthy {
+		edges = append(edges, tag+"/"+ip)
+	}
+	sort.Strings(edges)
+	sum := map[string]any{"rows": len(lines), "events": cnt.m["events"], "counters": cnt.m, "edges": edges}
 	b, _ := json.Marshal(sum)
 	fmt.Println(string(b))
 	return nil
@@ -285,7 +321,7 @@ func one(args []string) error {
 	if err != nil {
 		return err
 	}
-	conc, err := c16.Concretise(row, *variant, rngFor(*seed, *id, *variant))
+	conc, err := c16.Concretise(row, *variant, *id, rngFor(*seed, *id, *variant))
 	if err != nil {
 		return err
 	}
@@ -357,7 +393,7 @@ func prod(args []string) error {
 			return fmt.Errorf("row %d: %w", i, err)
 		}
 		variant := i % 3
-		conc, err := c16.Concretise(row, variant, rngFor(*seed, i, variant))
+		conc, err := c16.Concretise(row, variant, i, rngFor(*seed, i, variant))
 		if err != nil {
 			return err
 		}
@@ -373,7 +409,7 @@ func prod(args []string) error {
 		if err := enc.Encode(&ev); err != nil {
 			return err
 		}
-		count(local, row, "prod", obs, disp)
+		count(local, row, conc, "prod", obs, disp)
 		local["prod/"+disp.State+"/"+disp.Reason]++
 		n++
 		if *max > 0 && n >= *max {
